@@ -201,6 +201,15 @@ func (s *sweepCodec) round(v interface{}) (b []byte, out interface{}, err error)
 			err = fmt.Errorf("with a reader returning io.EOF together with the last bytes the value is %v instead of %v", out3, out)
 		}
 	}
+	if err == nil {
+		// and through the byte-slice entry point (its own reader set-up, possibly its own fast paths)
+		out4, err4 := s.dec.Decode(b)
+		if err4 != nil {
+			err = fmt.Errorf("Decoder.Decode of the byte slice: %v", err4)
+		} else if out4 != out && !(out4 != out4 && out != out) {
+			err = fmt.Errorf("Decoder.Decode of the byte slice gives %v instead of %v", out4, out)
+		}
+	}
 	return
 }
 
